@@ -14,6 +14,8 @@ LAYERS = [
 def gen(rng, i):
     depth = rng.choice([1, 1, 2, 2, 3])
     layers = [dict(rng.choice(LAYERS)) for _ in range(depth)]
+    if rng.random() < 0.15:
+        layers.append({"t": "asyncio"})     # AsyncioExecutor on top (the same gate / propagation duties)
     at = rng.choice([100, 200, 450])
     n = rng.choice([1, 2, 3, 4])
     nthreads = rng.choice([1, 2, 3])
